@@ -278,6 +278,43 @@ def run(rep, tier):
     syn(rep, rules)
     tree(rep, rules)
     builtins(rep)
+    generated(rep)
+
+
+def generated(rep):
+    """The same LEX / WS / SYN / TREE analysis on the PEG decompiled from the expanded JsonParser (typed HIR of
+    pest_grammars): removes the grammar reader, the optimizer and the code generator from the trusted base for
+    this grammar (what remains trusted is ParserState, C03, and the decompilation table of pv/decompile.py)."""
+    from .. import decompile
+    before = len(rep.rules)
+    r = rep.rule("C18.GENERATED", 16, "the derive-expanded JsonParser decompiles to a PEG (one rule per json.pest rule) "
+                 "on which the lexical, whitespace, token-level and tree analyses hold as well")
+    try:
+        c = facts.facts("default").crate("pest_grammars")
+        if c is None:
+            r.lost("pest_grammars facts")
+            return
+        rt = decompile.rule_terms(c, "json::JsonParser")
+        g = decompile.grammar(rt)
+    except decompile.NotUnderstood as e:
+        r.violation("decompile", "grammars/src/lib.rs", "the expanded JsonParser is not understood: %s" % e)
+        return
+    for n in sorted(g):
+        r.instance("rule:" + n, "grammars/src/lib.rs", "modifier %r" % g[n][0])
+    sk = rt.get("__skip__")
+    want = ("if", "state.atomicity() == Atomicity::NonAtomic", ("comb", "repeat", (), ("call", ("lit", "WHITESPACE"))), ("ok",))
+    r.instance("skip", "grammars/src/lib.rs")
+    if sk != want:
+        from ..terms import show
+        r.violation("skip", "grammars/src/lib.rs", "generated implicit skip is `%s`" % show(sk))
+    src_rules = set(pestgram.rules_dict(pestgram.parse_file(facts.REPO + "/" + JSON)))
+    if set(g) != src_rules:
+        r.violation("rule-set", "grammars/src/lib.rs", "generated parser has rules %s, json.pest has %s" % (
+            sorted(set(g) - src_rules), sorted(src_rules - set(g))))
+    lex(rep, g, "@generated")
+    ws(rep, g, "@generated")
+    syn(rep, g, "@generated")
+    tree(rep, g, "@generated")
 
 
 def token_follow_chars(rules):
@@ -306,8 +343,8 @@ def walk_expr(e):
                         yield y
 
 
-def lex(rep, rules):
-    r = rep.rule("C18.LEX", 6,
+def lex(rep, rules, tag=""):
+    r = rep.rule("C18.LEX" + tag, 6,
                  "string and number (with their helper rules) are regular, deterministic in the LL(1) sense, and "
                  "DFA-equivalent to RFC 8259 string / number over all scalar values; true/false/null are the RFC names")
     lx = Lex(rules, r)
@@ -359,8 +396,8 @@ def lex(rep, rules):
         r.violation("literal-first", JSON, "a literal name starts like another token")
 
 
-def ws(rep, rules):
-    r = rep.rule("C18.WS", 5,
+def ws(rep, rules, tag=""):
+    r = rep.rule("C18.WS" + tag, 5,
                  "WHITESPACE is exactly RFC ws, silent, disjoint from the first character of every token; COMMENT "
                  "is undefined; no token can be extended by a character that may follow it")
     if "WHITESPACE" not in rules:
@@ -394,8 +431,8 @@ def ws(rep, rules):
 
 # ------------------------------------------------------------------ token layer
 
-def syn(rep, rules):
-    r = rep.rule("C18.SYN", 7,
+def syn(rep, rules, tag=""):
+    r = rep.rule("C18.SYN" + tag, 7,
                  "token level: after factoring common literal prefixes every choice and repetition of json / value / "
                  "object / pair / array is LL(1); each production is equivalent to the RFC's over tokens and "
                  "nonterminals")
@@ -630,8 +667,8 @@ def factor(rx):
     return rx
 
 
-def tree(rep, rules):
-    r = rep.rule("C18.TREE", 10,
+def tree(rep, rules, tag=""):
+    r = rep.rule("C18.TREE" + tag, 10,
                  "json, value, object, pair, array, bool, null are normal rules (one pair each); string and number "
                  "are atomic (@: no inner pairs); WHITESPACE is silent; helper rules are reachable only inside @ rules")
     for n in ("json", "value", "object", "pair", "array", "bool", "null"):
